@@ -148,9 +148,8 @@ def classify(fam, op, got, exp, got_aux, exp_aux, got_snap, exp_snap, src="") ->
             if aux.get("rec") == "build-cycle" and has_class_cycle(fam):
                 # on-demand nested compilation follows a class cycle whose methods are installed only at the end
                 return {**sig, "kind": "ondemand-build-cycle", "side": side}
-        if len(out) > 3 and out[3] == "AttributeError" and "dialect=" in op and ATTR_RE.search(out[2] + " "):
-            return {**sig, "kind": "dialect-call-before-default-compile", "side": side}
-        if out[1] == "InvalidFieldValue" and len(out) > 3 and out[3] == "AttributeError" and "dialect=" in op:
+        if len(out) > 4 and out[3] == "AttributeError" and "dialect=" in op and ATTR_RE.search(out[4]):
+            # a dialect-specific build met a nested class whose default method was not compiled yet
             return {**sig, "kind": "dialect-call-before-default-compile", "side": side}
     return sig
 
